@@ -22,7 +22,7 @@ import (
 type fieldFact struct {
 	known     bool
 	neverSet  bool
-	singleDyn types.Type // interface field: the one concrete type ever stored (nil values aside)
+	singleDyn types.Type    // interface field: the one concrete type ever stored (nil values aside)
 	singleFn  *ssa.Function // function field: the one function ever stored (nil aside)
 	consts    []int64       // integer field: every store is one of these constants (the zero value aside)
 }
